@@ -76,14 +76,21 @@ def regen(id_=None):
     return r.returncode == 0, r.stdout
 
 
-def coq_build(clean=False):
+def coq_build(clean=False, pid=None):
+    """Full .vo build of the project.  The verdict for one property only depends on what that property needs: its
+    Properties file (with everything it imports) and the correspondence files; a theorem of ANOTHER property that no longer
+    checks (for instance against regenerated facts) is that property's business."""
     with Lock("coq"):
         if not os.path.exists(os.path.join(COQ, "Makefile")) or clean:
             run(["coq_makefile", "-f", "_CoqProject", "-o", "Makefile"], cwd=COQ)
         if clean:
             run(["make", "clean"], cwd=COQ, timeout=300)
-        r = run(["timeout", "3000", "make", "-j16"], cwd=COQ, timeout=3100)
-        return r.returncode == 0, r.stdout
+        r = run(["timeout", "3000", "make", "-k", "-j16"], cwd=COQ, timeout=3100)
+        if r.returncode == 0 or pid is None:
+            return r.returncode == 0, r.stdout
+        targets = ["Properties/%s.vo" % pid] + [os.path.relpath(f, COQ)[:-2] + ".vo" for f in sorted(glob.glob(os.path.join(COQ, "Corr", "*.v")))]
+        r2 = run(["timeout", "3000", "make", "-j16"] + targets, cwd=COQ, timeout=3100)
+        return r2.returncode == 0, (r2.stdout if r2.returncode != 0 else "built (another property's file failed elsewhere)")
 
 
 def scan_forbidden():
@@ -119,6 +126,26 @@ def limit_memory():
     # the code under test can blow up on hostile shapes (DESIGN.md 0.3): cap the harness's address space at 48 GiB
     import resource
     resource.setrlimit(resource.RLIMIT_AS, (48 << 30, 48 << 30))
+
+
+def parse_race_logs(out):
+    """Data race reports of a -race harness run: (pair of innermost bramble/harness frames, report text)."""
+    reports = []
+    for f in sorted(glob.glob(os.path.join(out, "race.*"))):
+        text = open(f, errors="replace").read()
+        for block in text.split("WARNING: DATA RACE")[1:]:
+            tops = []
+            for st in re.split(r"\n(?=(?:Read|Write|Previous read|Previous write) at )", block):
+                if not re.match(r"\s*(Read|Write|Previous read|Previous write) at", st):
+                    continue
+                top = None
+                for fn, _file, _line in re.findall(r"\n\s+(\S+)\(\)\n\s+(\S+):(\d+)", st):
+                    if "movio/bramble" in fn or fn.startswith("main."):
+                        top = fn.split("/")[-1]
+                        break
+                tops.append(top or "?")
+            reports.append((sorted(tops[:2]), block[:3000]))
+    return reports
 
 
 def harness_build(wd, race=False):
@@ -195,7 +222,7 @@ def decide(pid, tier):
     ok, out = regen(pid)
     if not obligation("translator", ok, out):
         broken_tie.append("translator: " + out[-2000:])
-    ok, out = coq_build(clean=(tier == "thorough" and os.environ.get("VERIF_NO_CLEAN") != "1"))
+    ok, out = coq_build(clean=(tier == "thorough" and os.environ.get("VERIF_NO_CLEAN") != "1"), pid=pid)
     if not obligation("coq build (make, full .vo)", ok, out[-3000:]):
         m = re.search(r'File "\./([^"]+)", line (\d+)', out)
         broken_tie.append("coq build failed at %s: %s" % (m.group(0) if m else "?", out[-1500:]))
@@ -222,11 +249,13 @@ def decide(pid, tier):
             broken_tie.append("coqchk failed: " + coqchk_out)
 
     # 2. harness against /repo's working tree
-    hok, hout, vh = harness_build(wd, race=bool(cfg.get("race") and tier == "thorough"))
+    race_build = bool(cfg.get("race") and tier == "thorough")
+    hok, hout, vh = harness_build(wd, race=race_build)
     if not obligation("harness builds against /repo (-tags verif)", hok, hout[-3000:]):
         broken_tie.append("harness no longer builds against /repo: " + hout[-2000:])
 
     all_cases = {}
+    race_reports = []
     crash_inputs = []
     summaries = []
     go_oracle = []
@@ -237,9 +266,16 @@ def decide(pid, tier):
             out = os.path.join(wd, sub["name"])
             nn = max(1, int(n * sub.get("share", 1.0)))
             cmd = [vh, sub["name"], "-seed", str(seed), "-n", str(nn), "-out", out, "-tier", tier] + sub.get("args", [])
+            henv = GOENV
+            if race_build:
+                # the race detector reports and lets the run finish; the reports are judged below
+                os.makedirs(out, exist_ok=True)
+                for old in glob.glob(os.path.join(out, "race.*")):
+                    os.remove(old)
+                henv = dict(GOENV, GORACE="halt_on_error=0 exitcode=0 log_path=%s" % os.path.join(out, "race"))
             try:
-                r = run(cmd, cwd=wd, env=GOENV, timeout=cfg.get("harness_timeout", 1800 if tier == "quick" else 7200),
-                        preexec_fn=limit_memory)
+                r = run(cmd, cwd=wd, env=henv, timeout=cfg.get("harness_timeout", 1800 if tier == "quick" else 7200),
+                        preexec_fn=None if race_build else limit_memory)
                 rc, rout = r.returncode, r.stdout
             except subprocess.TimeoutExpired as e:
                 rc, rout = 124, "harness timed out: %s" % e
@@ -253,6 +289,8 @@ def decide(pid, tier):
                     except Exception:
                         pass
                 continue
+            if race_build:
+                race_reports += parse_race_logs(out)
             s = json.load(open(os.path.join(out, "summary.json")))
             summaries.append(s)
             go_oracle += s.get("go_oracle") or []
@@ -325,6 +363,32 @@ def decide(pid, tier):
             continue
         seen_comp.add(comp)
         violations.append((write_replay(pid, "prop", case_payload(cname, comp)), ""))
+    if race_build:
+        known_pairs = {}
+        for k in load_known():
+            if k.get("status") == "known" and k["property"] == pid:
+                for pr in k.get("race_pairs", []):
+                    known_pairs[tuple(sorted(pr))] = k
+        unknown, seen_known = [], {}
+        for pair, text in race_reports:
+            k = known_pairs.get(tuple(pair))
+            if k:
+                seen_known[k["id"]] = seen_known.get(k["id"], 0) + 1
+            else:
+                unknown.append((pair, text))
+        obligation("race detector: no data race outside the recorded ones (%d report(s))" % len(race_reports), not unknown,
+                   "; ".join(" / ".join(p) for p, _ in unknown[:5]))
+        for kid, n in seen_known.items():
+            k = [x for x in load_known() if x["id"] == kid][0]
+            known_lines.append("KNOWN-FINDING: property=%s %s [%s; %d race report(s) this run]" % (pid, k["what"], kid, n))
+        seen_pairs = set()
+        for pair, text in unknown:
+            if tuple(pair) in seen_pairs:
+                continue
+            seen_pairs.add(tuple(pair))
+            violations.append((write_replay(pid, "race", {"property": pid, "component": "data race reported by the Go race detector",
+                                                          "access_pair": pair, "report": text, "seed": seed, "tier": tier,
+                                                          "how_to_replay": "./check.py %s --tier thorough (harness built with -race)" % pid}), ""))
     for hname, inp, tail_out in crash_inputs:
         violations.append((write_replay(pid, "crash", {"property": pid, "component": "the harness process died while the code under test handled this input",
                                                         "input": inp, "harness": hname, "output_tail": tail_out, "seed": seed, "tier": tier}), ""))
